@@ -2296,9 +2296,9 @@ def fast_nonMarkov_SIR(G, trans_time_fxn=None,
         # initial condition has first 100 nodes in G infected.
     
     '''                                 
-    if rho and initial_infecteds:
+    if rho is not None and initial_infecteds is not None:
         raise EoN.EoNError("cannot define both initial_infecteds and rho")
-    if rho and initial_recovereds:
+    if rho is not None and initial_recovereds is not None:
         raise EoN.EoNError("cannot define both initial_recovereds and rho")
 
     if (trans_time_fxn and not rec_time_fxn) or (rec_time_fxn and not trans_time_fxn):
@@ -2933,7 +2933,7 @@ def fast_nonMarkov_SIS(G, trans_time_fxn=None, rec_time_fxn=None,
 
                         
     '''
-    if rho  and initial_infecteds:
+    if rho is not None and initial_infecteds is not None:
         raise EoN.EoNError("cannot define both initial_infecteds and rho")
     
     if (trans_time_fxn and not rec_time_fxn) or (rec_time_fxn and not trans_time_fxn):
